@@ -481,6 +481,9 @@ func (e *engine) resetCounters() {
 
 func (e *engine) runPath(call1 func()) {
 	e.pos, e.trace, e.pc, e.steps = 0, nil, nil, 0
+	// interval facts are per path: a nondet re-declared with another range on this path must not
+	// inherit intervals derived on an earlier path (terms are hash-consed across paths)
+	ivals = map[*Term]ival{}
 	firstPanicStack = nil
 	e.resetSched()
 	mutexHeld = map[*value]bool{}
